@@ -19,7 +19,7 @@ import (
 func init() {
 	register(&Prop{
 		ID: "C20", Level: "exploration",
-		Rule: "one case = a router with LoggerWithHandler(capturing handler) over all handler kinds, a drawn router-wide client-IP resolver (none, succeeding, failing - returning nil or a rejected candidate address next to its error) and routes with a drawn per-route resolver (inherit, other succeeding, failing, nil), plus a twin router without the logger; 8-20 requests per run, each with a scripted handler behaviour from {explicit status at the class boundaries 200/299/300/399/400/499/500/599 and every code 301-308 and 310, each with or without a Location header set, 201 with a Location header, informational only, implicit 200 by a body write, no write at all, redirect with Location, 3xx without Location, write on a failing connection, panic with a drawn value} and a drawn handler kind (route, no-route, no-method, built-in redirect, options). Oracle: exactly one record per returning handler, emitted after the handler returned; status attribute = the status the recorder reports (first final status forwarded, 200 if none); method, host, path of the request; message = resolved client IP / remote address when no resolver is configured / 'unknown' when resolution fails, using the route's resolver in route handlers and the router-wide one elsewhere; level INFO/DEBUG/WARN/ERROR per status class, location attribute exactly for 3xx with a Location header; the bytes and headers on the simulated connection equal those of the twin router; a panic passes through as the identical value and emits no record. latency is ignored. Then 2-3 tasks send overlapping requests through the same wrapped handlers under the seeded scheduler (yields inside handlers and inside the log handler's Enabled, i.e. before slog copies the attributes): the records must be exactly one per request with that request's data. Non-trivial: the run covered at least 3 status classes and 2 handler kinds; distinct = hash of (configuration, request scripts).",
+		Rule: "one case = a router with LoggerWithHandler(capturing handler) over all handler kinds, a drawn router-wide client-IP resolver (none, succeeding, failing - returning nil or a rejected candidate address next to its error) and routes with a drawn per-route resolver (inherit, other succeeding, failing, nil), plus a twin router without the logger; 8-20 requests per run, each with a scripted handler behaviour from {explicit status at the class boundaries 200/299/300/399/400/499/500/599 and every code 301-308 and 310, each with or without a Location header set, 201 with a Location header, informational only, implicit 200 by a body write, no write at all, redirect with Location, 3xx without Location, write on a failing connection, panic with a drawn value} and a drawn handler kind (route, no-route, no-method, built-in redirect, options). The log handler has a drawn minimum level (DEBUG..ERROR). Oracle: exactly one record per returning handler whose level reaches that minimum (none below it), emitted after the handler returned; status attribute = the status the recorder reports (first final status forwarded, 200 if none); method, host, path of the request; message = resolved client IP / remote address when no resolver is configured / 'unknown' when resolution fails, using the route's resolver in route handlers and the router-wide one elsewhere; level INFO/DEBUG/WARN/ERROR per status class, location attribute exactly for 3xx with a Location header; the bytes and headers on the simulated connection equal those of the twin router; a panic passes through as the identical value and emits no record. latency is ignored. Then 2-3 tasks send overlapping requests through the same wrapped handlers under the seeded scheduler (yields inside handlers and inside the log handler's Enabled, i.e. before slog copies the attributes): the records must be exactly one per request with that request's data. Non-trivial: the run covered at least 3 status classes and 2 handler kinds; distinct = hash of (configuration, request scripts).",
 		Run:  runC20, Quick: 64000, Thorough: 9600000,
 		Real: []string{"Logger middleware (logger.go)", "Context.ClientIP / RemoteIP", "recorder ResponseWriter", "ServeHTTP dispatch", "option processing (WithClientIPResolver)"},
 		Stub: []string{"slog sink: capturing handler", "client-IP resolvers: scripted", "net/http connection: simulated connection", "wall clock: real but unobserved (latency attribute excluded)"},
@@ -61,7 +61,8 @@ func levelOf(status int) slog.Level {
 func runC20(src sim.Source, o Opts) *Result {
 	res := newResult()
 	res.Case["prop"] = "C20"
-	capt := &world.Capture{}
+	// the log handler's own minimum level: slog drops what is below it, everything else must still arrive
+	capt := &world.Capture{MinLevel: sim.Pick(src, "minlevel", []slog.Level{slog.LevelDebug, slog.LevelDebug, slog.LevelInfo, slog.LevelWarn, slog.LevelError})}
 	globalRes := src.Intn("globalresolver", 3)                                   // 0 none 1 ok 2 failing
 	failIP := sim.Pick(src, "failingresolveraddr", []string{"", "203.0.113.66"}) // what a failing resolver returns next to its error
 	var gopt []fox.GlobalOption
@@ -110,7 +111,7 @@ func runC20(src sim.Source, o Opts) *Result {
 			}
 		}
 	}
-	res.Case["config"] = fmt.Sprintf("global resolver %d, routes %v, failing resolvers return address %q with their error", globalRes, routes, failIP)
+	res.Case["config"] = fmt.Sprintf("global resolver %d, routes %v, failing resolvers return address %q with their error, log handler minimum level %s", globalRes, routes, failIP, capt.MinLevel)
 	expectMsg := func(kind model.Kind, r rdef) string {
 		eff := globalRes
 		if kind == model.KRoute {
@@ -246,8 +247,23 @@ func runC20(src sim.Source, o Opts) *Result {
 			res.fail("C20/panic", "%s: ServeHTTP panicked: %v", where, obs.Panic)
 			break
 		}
+		wantStatus0 := obs.Conn.Explicit
+		if wantStatus0 == 0 {
+			wantStatus0 = 200
+		}
+		if levelOf(wantStatus0) < capt.MinLevel {
+			// below the handler's minimum level: nothing may arrive
+			if len(capt.Records) != 0 {
+				res.fail("C20/record-count", "%s: %d records emitted although the handler's minimum level is %s", where, len(capt.Records), capt.MinLevel)
+				break
+			}
+			res.inc("records_below_handler_min_level")
+			classes[levelOf(wantStatus0)] = true
+			kinds[kind] = true
+			continue
+		}
 		if len(capt.Records) != 1 {
-			res.fail("C20/record-count", "%s: %d records emitted, expected exactly 1", where, len(capt.Records))
+			res.fail("C20/record-count", "%s: %d records emitted, expected exactly 1 (handler minimum level %s)", where, len(capt.Records), capt.MinLevel)
 			break
 		}
 		if emittedBeforeReturn {
@@ -302,7 +318,9 @@ func runC20(src sim.Source, o Opts) *Result {
 				st := sim.Pick(src, "status", []int{200, 201, 302, 404, 500})
 				pr := world.Probe{Method: "GET", Host: fmt.Sprintf("h%d-%d.invalid", t, q), Path: fmt.Sprintf("/l%d/c%d-%d", ri, t, q)}
 				reqs = append(reqs, creq{pr, st})
-				want = append(want, fmt.Sprintf("%s %s status=%d method=GET host=%s path=%s", levelOf(st), expectMsg(model.KRoute, routes[ri]), st, pr.Host, pr.Path))
+				if levelOf(st) >= capt.MinLevel {
+					want = append(want, fmt.Sprintf("%s %s status=%d method=GET host=%s path=%s", levelOf(st), expectMsg(model.KRoute, routes[ri]), st, pr.Host, pr.Path))
+				}
 			}
 			s.Go(fmt.Sprintf("client%d", t), func(*sim.Task) {
 				for _, rq := range reqs {
@@ -348,7 +366,7 @@ func runC20(src sim.Source, o Opts) *Result {
 	}
 	res.Case["requests"] = scripts
 	res.Nontrivial = len(classes) >= 3 && len(kinds) >= 2
-	res.CaseKey = hashStrings(append([]string{fmt.Sprint(globalRes), fmt.Sprint(routes), failIP}, scripts...)...)
+	res.CaseKey = hashStrings(append([]string{fmt.Sprint(globalRes), fmt.Sprint(routes), failIP, capt.MinLevel.String()}, scripts...)...)
 	res.Hash = hashStrings(fmt.Sprint(res.Checks), fmt.Sprint(scripts))
 	res.Steps = len(scripts)
 	return res
